@@ -284,9 +284,10 @@ def join_byte_intervals(
             )
         else:
             module_alignment = {}
+        # Blocks may share an offset; the strictest requirement wins.
         node = min(
             (b for b in interval.blocks if b in module_alignment),
-            key=lambda b: b.offset,
+            key=lambda b: (b.offset, -module_alignment[b]),
             default=interval,
         )
         if node == interval:
